@@ -1,34 +1,42 @@
 (* C14 -- property theorems only; each closed by `exact` and followed by Print Assumptions. *)
 Require Import SF.Prelude SF.Value SF.Dtype SF.Missing SF.MissingCheck
-  Proofs.MissingSpec Proofs.MissingKernel Proofs.MissingAxis1 Proofs.MissingRows Proofs.MissingNa.
+  Proofs.MissingSpec Proofs.MissingKernel Proofs.MissingAxis1 Proofs.MissingRows Proofs.MissingNa Proofs.MissingDrop.
 
 (* THE central theorem.  For EVERY partition of a row into 1-D / 2-D blocks of any widths (rows of a well-formed block list
    of any number of rows), the block-wise forward fill of TypeBlocks._fillna_directional_axis_1 -- bridging_values,
    bridging_count, bridging_isna carried from block to block, whole-block fast path, limit accounting -- equals the
    two-line specification S_ffill applied to the whole row, for every limit >= 0 (0 = unlimited). *)
-Theorem C14_ffill_axis1_any_layout : forall (A : Type) (limit : Z) (nrows : nat) (blocks : list (block A)),
+Theorem C14_ffill_axis1_any_layout : forall (A : Type) (cf : bool) (limit : Z) (nrows : nat) (blocks : list (block A)),
   0 <= limit -> frame_wf nrows blocks = true ->
-  M_dir_axis1 true limit nrows blocks = map (S_ffill limit) (frame_rows nrows blocks).
+  M_dir_axis1 cf true limit nrows blocks = map (S_ffill limit) (frame_rows nrows blocks).
 Proof. exact @dir_axis1_forward. Qed.
 Print Assumptions C14_ffill_axis1_any_layout.
 
 (* one row, any list of block views (the statement the induction over the block list proves) *)
-Theorem C14_ffill_row_any_partition : forall (A : Type) (limit : Z) (bs : list (rblock A)),
-  0 <= limit -> row_ok bs = true -> M_dir_row true limit bs = S_ffill limit (row_cells bs).
+Theorem C14_ffill_row_any_partition : forall (A : Type) (cf : bool) (limit : Z) (bs : list (rblock A)),
+  0 <= limit -> row_ok bs = true -> M_dir_row cf true limit bs = S_ffill limit (row_cells bs).
 Proof. exact @dir_row_forward. Qed.
 Print Assumptions C14_ffill_row_any_partition.
 
-(* Backward: the same, under the explicit guard frame_bwd_dom (no limit, or in every 2-D block the first cell is present
-   or first and last yielded slice are equally long).  Without the guard the statement is FALSE of the code: Refuted/C14.v. *)
-Theorem C14_bfill_axis1_any_layout_guarded : forall (A : Type) (limit : Z) (nrows : nat) (blocks : list (block A)),
-  0 <= limit -> frame_wf nrows blocks = true -> frame_bwd_dom limit nrows blocks = true ->
-  M_dir_axis1 false limit nrows blocks = map (S_bfill limit) (frame_rows nrows blocks).
+(* Backward: the same, under the explicit guard frame_bwd_dom cf: it is `true` outright for cf = true (the repaired code,
+   count taken from the first yielded slice); for cf = false (the pinned code, as Gen/Gen_c14.v reads it from the source) it
+   demands: no limit, or in every 2-D block the first cell is present or first and last yielded slice are equally long.
+   Without the guard the statement is FALSE of the pinned code: Refuted/C14.v. *)
+Theorem C14_bfill_axis1_any_layout_guarded : forall (A : Type) (cf : bool) (limit : Z) (nrows : nat) (blocks : list (block A)),
+  0 <= limit -> frame_wf nrows blocks = true -> frame_bwd_dom cf limit nrows blocks = true ->
+  M_dir_axis1 cf false limit nrows blocks = map (S_bfill limit) (frame_rows nrows blocks).
 Proof. exact @dir_axis1_backward. Qed.
 Print Assumptions C14_bfill_axis1_any_layout_guarded.
 
+(* the repaired decision needs no guard at all: backward = specification for every layout and every limit *)
+Theorem C14_bfill_row_repaired_any_partition : forall (A : Type) (limit : Z) (bs : list (rblock A)),
+  0 <= limit -> row_ok bs = true -> M_dir_row true false limit bs = S_bfill limit (row_cells bs).
+Proof. exact @dir_row_backward_repaired. Qed.
+Print Assumptions C14_bfill_row_repaired_any_partition.
+
 (* the guard is vacuous without a limit: unlimited backward fill is right for every layout *)
-Theorem C14_bfill_row_nolimit_any_partition : forall (A : Type) (bs : list (rblock A)),
-  row_ok bs = true -> M_dir_row false 0 bs = S_bfill 0 (row_cells bs).
+Theorem C14_bfill_row_nolimit_any_partition : forall (A : Type) (cf : bool) (bs : list (rblock A)),
+  row_ok bs = true -> M_dir_row cf false 0 bs = S_bfill 0 (row_cells bs).
 Proof. exact @dir_row_backward_nolimit. Qed.
 Print Assumptions C14_bfill_row_nolimit_any_partition.
 
@@ -71,7 +79,7 @@ Print Assumptions C14_bfill_exact.
 
 Theorem C14_decomposition : forall (A : Type) (l : list (option A)),
   (exists k0 gs, l = nones k0 ++ flat gs) /\ (exists gs kend, l = flatb gs ++ nones kend).
-Proof. exact (fun A l => conj (decompose l) (decompose_b l)). Qed.
+Proof. exact @decompositions. Qed.
 Print Assumptions C14_decomposition.
 
 (* leading fill touches exactly the leading missing run *)
@@ -112,3 +120,11 @@ Theorem C14_dropna_exact : forall (A L : Type) (use_any : bool) (labels : list L
    else exists c, In c line /\ is_missing c = false).
 Proof. exact @S_dropna_lines_exact. Qed.
 Print Assumptions C14_dropna_exact.
+
+(* the keep mask TypeBlocks.dropna_to_keep_locations computes = the lines the specification keeps, for every frame that is
+   not "a single 1-D block on axis 1" (that case is refuted in Refuted/C14.v) *)
+Theorem C14_dropna_keep_refines : forall (A : Type) (reshaped axis1 use_any : bool) (nrows : nat) (single1d : bool) (cols : list (list (option A))),
+  (single1d = true -> reshaped = true \/ (axis1 = false /\ exists col, cols = [col] /\ length col = nrows)) ->
+  M_dropna_keep reshaped axis1 use_any nrows single1d (map (map is_missing) cols) = S_keep axis1 use_any nrows cols.
+Proof. exact @dropna_keep_refines. Qed.
+Print Assumptions C14_dropna_keep_refines.
